@@ -375,6 +375,10 @@ fn triangle_area_section(s: &Section, thorough: bool) {
             let vf = |p: &Vec<i64>| Vec2 { x: p[0] as f64, y: p[1] as f64 };
             let gf = Vec2::triangle_area(vf(a), vf(b), vf(c));
             if gf != cr.abs() as f64 / 2.0 { vio(s, "Vec2::triangle_area<f64>", "not-|cross|/2", json!({"input": inp(), "got": gf, "want": cr.abs() as f64 / 2.0}), wsum(a) + wsum(b) + wsum(c)); }
+            // second audit: the f32 member of the family
+            let vs_ = |p: &Vec<i64>| Vec2 { x: p[0] as f32, y: p[1] as f32 };
+            let gs = Vec2::triangle_area(vs_(a), vs_(b), vs_(c));
+            if gs != cr.abs() as f32 / 2.0 { vio(s, "Vec2::triangle_area<f32>", "not-|cross|/2", json!({"input": inp(), "got": gs as f64, "want": cr.abs() as f64 / 2.0}), wsum(a) + wsum(b) + wsum(c)); }
             if cr < 0 && s.wants_sample() { s.sample(json!({"input": inp(), "signed cross": cr, "triangle_area": jx(want)})); }
         } }
         s.evals(2 * (ccw + cw + col), 2 * (ccw + cw));
@@ -438,6 +442,8 @@ fn homogenized_section(s: &Section, degs: &Degs, thorough: bool) {
             let v = Vec4 { x: a * w, y: b * w, z: c * w, w };
             let (g1, mut g2) = (v.homogenized(), v); g2.homogenize();
             s.eval(true); s.class("float w sweep");
+            // second audit: a second call divides by w = 1 and must leave every lane as it is
+            { let mut g3 = g2; g3.homogenize(); if g2.w == 1.0 && g3 != g2 { vio(s, concat!("Vec4::homogenize<", $name, ">"), "second-call-changes-a-homogenized-vector", json!({"v": [v.x as f64, v.y as f64, v.z as f64, v.w as f64], "after_first": [g2.x as f64, g2.y as f64, g2.z as f64, g2.w as f64], "after_second": [g3.x as f64, g3.y as f64, g3.z as f64, g3.w as f64]}), 1); } }
             for (site, g) in [(concat!("Vec4::homogenized<", $name, ">"), g1), (concat!("Vec4::homogenize<", $name, ">"), g2)] {
                 if g.w != 1.0 { vio(s, site, "w-not-1", json!({"v": [v.x as f64, v.y as f64, v.z as f64, v.w as f64], "got_w": g.w as f64}), 1); }
                 for (gi, vi) in [(g.x, v.x), (g.y, v.y), (g.z, v.z)] { let q = (vi / w) as f64; if !((gi as f64 - q).abs() <= 2.0 * <$F>::EPSILON as f64 * q.abs()) { vio(s, site, "not-v/w", json!({"v": [v.x as f64, v.y as f64, v.z as f64, v.w as f64], "got": gi as f64, "want": q}), 1); } }
@@ -614,9 +620,13 @@ fn float_norms<F: Fl, V: Sp<F>>(s: &Section, thorough: bool) {
                 ("normalized_and_get_magnitude", s.call(&site("normalized_and_get_magnitude"), inp, || { let (u, l) = vv.normalized_get_(); (felems::<F, V>(u), Some(l.f())) })),
                 ("normalize_and_get_magnitude", s.call(&site("normalize_and_get_magnitude"), inp, || { let mut t = vv; let l = t.normalize_get_(); (felems::<F, V>(t), Some(l.f())) })),
             ];
+            let first: Option<Vec<f64>> = forms[0].1.as_ref().map(|(u, _)| u.clone());
             for (f, got) in forms {
                 n_ev += 1;
                 let Some((u, l)) = got else { continue };
+                // second audit: "the also-returns-magnitude and in-place forms consistent" - the same quotient, the same length, bit for bit
+                if let Some(u0) = &first { if &u != u0 { vio(s, &site(f), "differs-from-normalized()", json!({"input": inp(), "got": u, "normalized()": u0}), w); } }
+                if let Some(l) = l { if l != m { vio(s, &site(f), "returned-magnitude-differs-from-magnitude()", json!({"input": inp(), "got": l, "magnitude()": m}), w); } }
                 if (0..n).any(|i| !near::<F>(u[i], unit[i], 1.0)) {
                     let len = fdot(&u, &u).sqrt();
                     vio(s, &site(f), if near::<F>(len, 1.0, 1.0) { "not-parallel" } else { "not-unit-length" }, json!({"input": inp(), "got": u, "want v/|v|": unit, "|got|": len}), w);
@@ -659,7 +669,8 @@ fn try_norm_exact<V: Sp<X>>(s: &Section, us: &[Vec<X>]) {
     let site = format!("{}::try_normalized<X>", name);
     let p2 = |e: u32| q(1, 1i128 << e);
     // eps(X) = 2^-52; "near zero" band of the property: |v|^2 <= 16 eps = 2^-48
-    let scales: [(X, &str); 8] = [(qi(0), "zero"), (p2(40), "tiny"), (p2(25), "tiny"), (p2(24), "tiny"), (p2(23), "clearly-non-zero"), (p2(10), "clearly-non-zero"), (qi(1), "clearly-non-zero"), (qi(10_000_000_000), "clearly-non-zero")];
+    // second audit: 33/32 * 2^-24 and 3 * 2^-25 sit just above the band (|v|^2 = 1.06 and 2.25 times 16 eps)
+    let scales: [(X, &str); 10] = [(qi(0), "zero"), (p2(40), "tiny"), (p2(25), "tiny"), (p2(24), "tiny"), (q(33, 1i128 << 29), "clearly-non-zero"), (q(3, 1i128 << 25), "clearly-non-zero"), (p2(23), "clearly-non-zero"), (p2(10), "clearly-non-zero"), (qi(1), "clearly-non-zero"), (qi(10_000_000_000), "clearly-non-zero")];
     for u in us { for &(sc, kind) in &scales {
         let v: Vec<X> = u.iter().map(|&c| c * sc).collect();
         let vv: V = V::from_elems(v.clone());
@@ -685,8 +696,10 @@ fn try_norm_exact<V: Sp<X>>(s: &Section, us: &[Vec<X>]) {
 fn try_norm_float<F: Fl, V: Sp<F>>(s: &Section, us: &[Vec<X>]) {
     let name = V::NAME;
     let site = format!("{}::try_normalized<{}>", name, F::NAME);
-    let scales: [f64; 10] = [0.0, 1e-30, 1e-20, 1e-12, 5e-8, 1e-6, 1e-3, 1e-2, 1.0, 1e10];
     let band = 16.0 * F::EPS;
+    // second audit: |v|^2 = 1.06, 2, 8 and 64 times the band edge (just above the threshold), and 0.9 times (just below, either answer allowed)
+    let mut scales: Vec<f64> = vec![0.0, 1e-30, 1e-20, 1e-12, 5e-8, 1e-6, 1e-3, 1e-2, 1.0, 1e10];
+    scales.extend([(0.9 * band).sqrt(), (1.06 * band).sqrt(), (2.0 * band).sqrt(), (8.0 * band).sqrt(), (64.0 * band).sqrt()]);
     for u in us { for &sc in &scales {
         let uf = qf(u);
         let vv: V = V::from_elems(uf.iter().map(|&c| F::of(c * sc)).collect());
@@ -1140,16 +1153,28 @@ fn slerp_float_near_parallel<F: Sl>(s: &Section, thorough: bool) {
 
 /// nearly unit vectors: the in-place forms must agree with normalized() (the statement's "in-place forms consistent") and reach unit length
 fn nearly_unit<F: Fl, V: Sp<F>>(s: &Section) {
+    nearly_unit_with::<F, V>(s, &[1e-2f64, 1e-3, 1e-4, 1e-5, 1e-7, -1e-3, -1e-5], "nearly unit input");
+    // second audit: deviations of a few ulp (a guard as tight as is_normalized()'s 4 eps only skips these) and the usual hand-typed tolerances
+    let ulps: Vec<f64> = [0.0, -8.0, -4.0, -3.0, -2.0, -1.0, -0.5, 0.5, 1.0, 2.0, 3.0, 4.0, 8.0, 64.0, -64.0].iter().map(|k| k * F::EPS).chain([3e-6, -3e-6, 3e-9, -3e-9, 3e-12]).collect();
+    nearly_unit_with::<F, V>(s, &ulps, "unit input off by a few ulp");
+}
+fn nearly_unit_with<F: Fl, V: Sp<F>>(s: &Section, deltas: &[f64], class: &str) {
     let n = V::N;
     let site = |f: &str| format!("{}::{}<{}>", V::NAME, f, F::NAME);
-    for delta in [1e-2f64, 1e-3, 1e-4, 1e-5, 1e-7, -1e-3, -1e-5] { for shape in 0..3usize { for pos in 0..n.min(4) {
+    for &delta in deltas { for shape in 0..3usize { for pos in 0..n.min(4) {
         // shape 0: (0.6, 0.8) plus a small extra component; 1: one lane 1 + delta; 2: (0.6 + delta, 0.8)
         let mut e = vec![0.0f64; n];
         match shape { 0 => { e[pos] = 0.6; e[(pos + 1) % n] = 0.8; if n > 2 { e[(pos + 2) % n] = delta; } else { e[pos] += delta; } }, 1 => { e[pos] = 1.0 + delta; }, _ => { e[pos] = 0.6 + delta; e[(pos + 1) % n] = 0.8; } }
         let vv: V = V::from_elems(e.iter().map(|&x| F::of(x)).collect());
         let inp = || json!({"v": e});
-        s.eval(true); s.class("nearly unit input");
+        s.eval(true); s.class(class);
         let Some(want) = s.call(&site("normalized"), inp, || felems::<F, V>(vv.normalized_())) else { continue };
+        // one lane only: v/|v| is +-1 exactly, whatever the deviation
+        if shape == 1 && want[pos] != 1.0 { vio(s, &site("normalized"), "axis-aligned:not-exactly-the-unit-axis", json!({"input": inp(), "got": want}), 1); }
+        // second call on the same value: the vector stays where it is (within the bound) and the reported previous length is 1 (within the bound)
+        if let Some((t2, l2)) = s.call(&site("normalize_and_get_magnitude"), inp, || { let mut t = vv; t.normalize_(); let l = t.normalize_get_(); (felems::<F, V>(t), l.f()) }) {
+            if !near::<F>(l2, 1.0, 1.0) || (0..n).any(|i| !near::<F>(t2[i], want[i], 1.0)) { vio(s, &site("normalize_and_get_magnitude"), "second-call:normalising-a-normalised-vector-moves-it", json!({"input": inp(), "after_second_call": t2, "returned_length": l2, "normalized()": want}), 1); }
+        }
         let len = fdot(&want, &want).sqrt();
         if !near::<F>(len, 1.0, 1.0) { vio(s, &site("normalized"), "not-unit-length", json!({"input": inp(), "|got|": len}), 1); }
         for (f, got) in [("normalize", s.call(&site("normalize"), inp, || { let mut t = vv; t.normalize_(); felems::<F, V>(t) })),
@@ -1157,6 +1182,384 @@ fn nearly_unit<F: Fl, V: Sp<F>>(s: &Section) {
                          ("normalized_and_get_magnitude", s.call(&site("normalized_and_get_magnitude"), inp, || felems::<F, V>(vv.normalized_get_().0)))] {
             let Some(g) = got else { continue };
             if g != want { let gl = fdot(&g, &g).sqrt(); vio(s, &site(f), "differs-from-normalized()", json!({"input": inp(), "got": g, "normalized()": want, "|got|": gl}), 1); }
+        }
+    } } }
+}
+
+// ---------------------------------------------------------------------------------------------
+// 12. second audit: special values, thresholds, extreme (in-policy) magnitudes, twins, second calls
+
+/// element types with exact small integers and exact power-of-two scaling
+trait Sc: Elt {
+    /// integer element type: no scaling, halves only of even numbers
+    const INT: bool;
+    /// (p, q): exponents applied to the first / second operand of the ring functions
+    const SCALES: &'static [(i32, i32)];
+    /// exponents for a dot product that is tiny / huge but representable
+    const TINY: &'static [i32];
+    /// exponent for "huge / tiny length whose square is still representable"
+    const BIGN: i32;
+    fn p2(self, e: i32) -> Self;
+}
+impl Sc for X { const INT: bool = false; const SCALES: &'static [(i32, i32)] = &[(0, 0), (-30, 1), (20, 0)]; const TINY: &'static [i32] = &[-60, 40]; const BIGN: i32 = 30;
+    fn p2(self, e: i32) -> X { if e >= 0 { self * qi(1i128 << e) } else { self * q(1, 1i128 << (-e)) } } }
+impl Sc for f64 { const INT: bool = false; const SCALES: &'static [(i32, i32)] = &[(0, 0), (-400, 1), (300, 0), (-60, -60)]; const TINY: &'static [i32] = &[-60, -500, -1000, 500]; const BIGN: i32 = 480;
+    fn p2(self, e: i32) -> f64 { assert!((-1022..=1023).contains(&e)); self * f64::from_bits(((1023 + e) as u64) << 52) } }
+impl Sc for f32 { const INT: bool = false; const SCALES: &'static [(i32, i32)] = &[(0, 0), (-40, 1), (30, 0), (-12, -12)]; const TINY: &'static [i32] = &[-30, -100, 60]; const BIGN: i32 = 56;
+    fn p2(self, e: i32) -> f32 { assert!((-126..=127).contains(&e)); self * f32::from_bits(((127 + e) as u32) << 23) } }
+impl Elt for i32 { const NAME: &'static str = "i32"; fn fi(v: i64) -> i32 { v as i32 } }
+impl Elt for i64 { const NAME: &'static str = "i64"; fn fi(v: i64) -> i64 { v } }
+impl Sc for i32 { const INT: bool = true; const SCALES: &'static [(i32, i32)] = &[(0, 0)]; const TINY: &'static [i32] = &[]; const BIGN: i32 = 0; fn p2(self, e: i32) -> i32 { assert_eq!(e, 0); self } }
+impl Sc for i64 { const INT: bool = true; const SCALES: &'static [(i32, i32)] = &[(0, 0)]; const TINY: &'static [i32] = &[]; const BIGN: i32 = 0; fn p2(self, e: i32) -> i64 { assert_eq!(e, 0); self } }
+
+/// signed small-integer vectors of a type (thinned for the wide types)
+fn signed_left(n: usize, thorough: bool) -> Vec<Vec<i64>> {
+    if n <= 4 { return if thorough && n <= 3 { grid(n, -3, 3) } else { grid(n, -2, 2) }; }
+    let d = deviations(n, 0, &[-2, -1, 1, 2]);
+    let k = d.len() / if thorough { 4000 } else { 400 } + 1;
+    let mut l: Vec<Vec<i64>> = d.into_iter().step_by(k).collect();
+    l.extend(deviations(n, 1, &[-2, -1]).into_iter().step_by(k));
+    l.push((0..n).map(|i| -1 - (i % 2) as i64).collect());
+    l
+}
+fn signed_right(n: usize) -> Vec<Vec<i64>> {
+    if n <= 3 { return grid(n, -2, 2); }
+    if n == 4 { return grid(n, -1, 1); }
+    let mut c = companions(n);
+    c.push((0..n).map(|i| 2 - (i % 5) as i64).collect());
+    c.push(vec![-1; n]);
+    c
+}
+
+/// dot / magnitude_squared / distance_squared / reflected on SIGNED operands scaled by exact powers of two: the lattice sections
+/// use non-negative integers (enough for a polynomial identity, blind to a sign- or size-dependent branch)
+fn ring_signed<T: Sc, V: SpRing<T>>(s: &Section, thorough: bool) {
+    let n = V::N;
+    let (left, right) = (signed_left(n, thorough), signed_right(n));
+    let site = |f: &str| format!("{}::{}<{}>", V::NAME, f, T::NAME);
+    let sites = [site("dot"), site("magnitude_squared"), site("distance_squared"), site("reflected")];
+    let mk = |a: &[i64], e: i32| -> V { V::from_elems(a.iter().map(|&v| T::fi(v).p2(e)).collect()) };
+    left.par_iter().for_each(|a| {
+        let (mut ev, mut nt, mut negd, mut scaled) = (0u64, 0u64, 0u64, 0u64);
+        let aa: i64 = a.iter().map(|x| x * x).sum();
+        for b in &right { for &(p, q_) in T::SCALES {
+            let ab: i64 = (0..n).map(|i| a[i] * b[i]).sum();
+            let dd: i64 = (0..n).map(|i| (a[i] - b[i]) * (a[i] - b[i])).sum();
+            let w = wsum(a) + wsum(b) + (p != 0) as u64 + (q_ != 0) as u64;
+            let inp = || json!({"a": a, "b": b, "a_scaled_by_2^": p, "b_scaled_by_2^": q_});
+            let (va, vb, vbp) = (mk(a, p), mk(b, q_), mk(b, p));
+            ev += 4; if ab != 0 { nt += 4; } if ab < 0 { negd += 1; } if p != 0 || q_ != 0 { scaled += 1; }
+            if let Some(g) = s.call(&sites[0], inp, || va.dot_(vb)) { let want = T::fi(ab).p2(p + q_); if g != want { vio(s, &sites[0], "signed-or-scaled-operands:not-the-sum-of-products", json!({"input": inp(), "got": jd(&g), "want": jd(&want)}), w); } }
+            if let Some(g) = s.call(&sites[1], inp, || va.mag2_()) { let want = T::fi(aa).p2(2 * p); if g != want { vio(s, &sites[1], "signed-or-scaled-operands:not-v.v", json!({"input": inp(), "got": jd(&g), "want": jd(&want)}), w); } }
+            if let Some(g) = s.call(&sites[2], inp, || va.dist2_(vbp)) { let want = T::fi(dd).p2(2 * p); if g != want { vio(s, &sites[2], "signed-or-scaled-operands:not-|a-b|^2", json!({"input": inp(), "both_scaled_by_2^": p, "got": jd(&g), "want": jd(&want)}), w); } }
+            if q_ >= 0 { if let Some(g) = s.call(&sites[3], inp, || va.refl_(vb).into_elems()) {
+                let want: Vec<T> = (0..n).map(|i| T::fi(a[i] - 2 * ab * b[i] * (1i64 << (2 * q_))).p2(p)).collect();
+                if g != want { vio(s, &sites[3], "signed-or-scaled-operands:not-v-2(v.n)n", json!({"input": inp(), "v.n (unscaled)": ab, "got": jd(&g), "want": jd(&want)}), w); }
+            } }
+        } }
+        s.evals(ev, nt);
+        s.class_n("negative dot product", negd); s.class_n("operands scaled by powers of two", scaled);
+    });
+    s.meta(&format!("{}<{}>", V::NAME, T::NAME), json!({"left_vectors": left.len(), "right_vectors": right.len(), "scales (exponents of 2)": T::SCALES}));
+}
+
+fn cross_signed<T: Sc + std::ops::Mul<Output = T> + std::ops::Sub<Output = T>>(s: &Section, thorough: bool) {
+    let g3 = if thorough { grid(3, -3, 3) } else { grid(3, -2, 2) };
+    let site = format!("Vec3::cross<{}>", T::NAME);
+    g3.par_iter().for_each(|a| {
+        let (mut ev, mut nt) = (0u64, 0u64);
+        for b in &g3 { for &(p, q_) in T::SCALES {
+            let want_i = [a[1] * b[2] - a[2] * b[1], a[2] * b[0] - a[0] * b[2], a[0] * b[1] - a[1] * b[0]];
+            let want = want_i.map(|c| T::fi(c).p2(p + q_));
+            let va = Vec3 { x: T::fi(a[0]).p2(p), y: T::fi(a[1]).p2(p), z: T::fi(a[2]).p2(p) };
+            let vb = Vec3 { x: T::fi(b[0]).p2(q_), y: T::fi(b[1]).p2(q_), z: T::fi(b[2]).p2(q_) };
+            let inp = || json!({"a": a, "b": b, "a_scaled_by_2^": p, "b_scaled_by_2^": q_});
+            ev += 1; if want_i.iter().any(|&c| c != 0) { nt += 1; }
+            if let Some(g) = s.call(&site, inp, || { let r = va.cross(vb); [r.x, r.y, r.z] }) {
+                if g != want { vio(s, &site, "signed-or-scaled-operands:wrong-value", json!({"input": inp(), "got": jd(&g), "want": jd(&want)}), wsum(a) + wsum(b) + (p != 0) as u64); }
+            }
+        } }
+        s.evals(ev, nt);
+        s.class_n("cross product, signed grid", ev);
+    });
+}
+
+fn side_signed<T>(s: &Section, thorough: bool)
+where T: Sc + PartialOrd + num_traits::One + std::ops::Mul<Output = T> + std::ops::Sub<Output = T> + std::ops::Add<Output = T> + std::ops::Div<Output = T> + std::ops::Neg<Output = T> {
+    let g2 = if thorough { grid(2, -3, 3) } else { grid(2, -2, 2) };
+    let site = |f: &str| format!("Vec2::{}<{}>", f, T::NAME);
+    let (s_side, s_signed, s_area) = (site("determine_side"), site("signed_triangle_area"), site("triangle_area"));
+    g2.par_iter().for_each(|a| {
+        let (mut ev, mut nt) = (0u64, 0u64);
+        for b in &g2 { for c in &g2 { for &(p, _) in T::SCALES {
+            let cr = (b[0] - a[0]) * (c[1] - a[1]) - (b[1] - a[1]) * (c[0] - a[0]);
+            let v = |t: &Vec<i64>| Vec2 { x: T::fi(t[0]).p2(p), y: T::fi(t[1]).p2(p) };
+            let inp = || json!({"a": a, "b": b, "c": c, "all_scaled_by_2^": p});
+            let w = wsum(a) + wsum(b) + wsum(c) + (p != 0) as u64;
+            ev += 1; if cr != 0 { nt += 1; }
+            if let Some(g) = s.call(&s_side, inp, || v(c).determine_side(v(a), v(b))) {
+                let want = T::fi(cr).p2(2 * p);
+                if g != want { vio(s, &s_side, "signed-or-scaled-operands:not-the-2d-cross-product", json!({"input": inp(), "got": jd(&g), "want": jd(&want)}), w); }
+            }
+            // halves: exact for floats and rationals; integer division only pinned for an even cross product
+            let half = if T::INT { if cr % 2 == 0 { Some((T::fi(cr / 2), T::fi(cr.abs() / 2))) } else { None } } else { Some((T::fi(cr).p2(2 * p - 1), T::fi(cr.abs()).p2(2 * p - 1))) };
+            let Some((hs, ha)) = half else { continue };
+            ev += 2; if cr != 0 { nt += 2; }
+            if let Some(g) = s.call(&s_signed, inp, || Vec2::signed_triangle_area(v(a), v(b), v(c))) { if g != hs { vio(s, &s_signed, "signed-or-scaled-operands:not-half-the-2d-cross-product", json!({"input": inp(), "got": jd(&g), "want": jd(&hs)}), w); } }
+            if let Some(g) = s.call(&s_area, inp, || Vec2::triangle_area(v(a), v(b), v(c))) { if g != ha { vio(s, &s_area, "signed-or-scaled-operands:not-|cross|/2", json!({"input": inp(), "got": jd(&g), "want": jd(&ha)}), w); } }
+        } } }
+        s.evals(ev, nt);
+        s.class_n("2d cross product, signed grid", ev);
+    });
+}
+
+/// float forms of distance for the far-from-origin alphabet
+trait Dst<T: Copy>: VecN<T> + Copy + Send + Sync { fn dist(self, o: Self) -> T; fn sub_mag(self, o: Self) -> T; }
+macro_rules! impl_dst { ($($V:ident),*) => { $(
+    impl Dst<f32> for $V<f32> { fn dist(self, o: Self) -> f32 { self.distance(o) } fn sub_mag(self, o: Self) -> f32 { (self - o).magnitude() } }
+    impl Dst<f64> for $V<f64> { fn dist(self, o: Self) -> f64 { self.distance(o) } fn sub_mag(self, o: Self) -> f64 { (self - o).magnitude() } }
+)* } }
+impl_dst!(Vec2, Vec3, Vec4, Vec8, Vec16, Vec32, Vec64, Extent2, Extent3);
+
+/// `distance` on the alphabet of `dist2_offsets`: the lane differences and their squares are exact, so distance(a,b) must be the
+/// correctly rounded square root of the exact sum (sqrt is correctly rounded) - bit for bit
+fn dist_offsets<T: Copy + PartialEq + Debug + Send + Sync, V: Dst<T>>(s: &Section, tname: &str, mk: &(dyn Fn(i64, i64) -> T + Sync), want_of: &(dyn Fn(i64) -> T + Sync)) {
+    let n = V::N;
+    let site = format!("{}::distance<{}>", V::NAME, tname);
+    let pat: [i64; 7] = [0, 1, -1, 2, 3, -2, 1];
+    for r in 0..n.min(7) { for stride in [1usize, 2, 3] { for shift in [1usize, 3] {
+        let da: Vec<i64> = (0..n).map(|i| pat[(r + i * stride) % 7]).collect();
+        let db: Vec<i64> = (0..n).map(|i| pat[(r + shift + i * (stride + 1)) % 7]).collect();
+        let k: Vec<i64> = (0..n).map(|i| 1 + (i as i64 + r as i64) % 3).collect();
+        let a = V::from_elems((0..n).map(|i| mk(k[i], da[i])).collect());
+        let b = V::from_elems((0..n).map(|i| mk(k[i], db[i])).collect());
+        let sum: i64 = (0..n).map(|i| (da[i] - db[i]) * (da[i] - db[i])).sum();
+        let want = want_of(sum);
+        let inp = || json!({"lane_multipliers_of_the_base": k, "offsets_a(quarter units)": da, "offsets_b(quarter units)": db});
+        s.eval(sum != 0);
+        s.class("distance of close points far from the origin");
+        for (g, st) in [(s.call(&site, inp, || a.dist(b)), site.clone()), (s.call(&site, inp, || b.dist(a)), site.clone()), (s.call(&site, inp, || a.sub_mag(b)), format!("{}::(a-b).magnitude<{}>", V::NAME, tname))] {
+            if let Some(g) = g { if g != want { vio(s, &st, "not-the-length-of-the-difference", json!({"input": inp(), "got": format!("{:?}", g), "want": format!("{:?}", want)}), r as u64 + stride as u64); } }
+        }
+    } } }
+}
+
+/// determine_side / signed_triangle_area / triangle_area of three close points far from the origin: the coordinate differences are
+/// exact, so the results are exactly the cross product of the offsets; an expanded ("shoelace") formula multiplies the huge
+/// coordinates first and cancels afterwards (floats lose the answer, integers overflow)
+fn side_far<T>(s: &Section, thorough: bool, tname: &str, mk: &(dyn Fn(i64, i64) -> T + Sync), side_of: &(dyn Fn(i64) -> T + Sync), half_of: &(dyn Fn(i64) -> Option<T> + Sync))
+where T: Copy + PartialEq + PartialOrd + Debug + Send + Sync + num_traits::One + std::ops::Mul<Output = T> + std::ops::Sub<Output = T> + std::ops::Add<Output = T> + std::ops::Div<Output = T> + std::ops::Neg<Output = T> {
+    let offs: Vec<i64> = if thorough { (-3..=3).collect() } else { (-2..=2).collect() };
+    let site = |f: &str| format!("Vec2::{}<{}>", f, tname);
+    let (s_side, s_signed, s_area) = (site("determine_side"), site("signed_triangle_area"), site("triangle_area"));
+    par_tuples(&offs, 6, |o| {
+        let (mut ev, mut nt) = (0u64, 0u64);
+        for (kx, ky) in [(1i64, 1i64), (3, 2), (-2, 1), (1, -3)] {
+            let (a, b, c) = (Vec2 { x: mk(kx, o[0]), y: mk(ky, o[1]) }, Vec2 { x: mk(kx, o[2]), y: mk(ky, o[3]) }, Vec2 { x: mk(kx, o[4]), y: mk(ky, o[5]) });
+            let cr = (o[2] - o[0]) * (o[5] - o[1]) - (o[3] - o[1]) * (o[4] - o[0]);
+            let inp = || json!({"base_multipliers(x,y)": [kx, ky], "offsets a,b,c (quarter units for floats)": o});
+            let w = wsum(o);
+            ev += 1; if cr != 0 { nt += 1; }
+            if let Some(g) = s.call(&s_side, inp, || c.determine_side(a, b)) { let want = side_of(cr); if g != want { vio(s, &s_side, "far-from-origin:not-the-2d-cross-product-of-the-differences", json!({"input": inp(), "got": format!("{:?}", g), "want": format!("{:?}", want)}), w); } }
+            let (Some(hs), Some(ha)) = (half_of(cr), half_of(cr.abs())) else { continue };
+            ev += 2; if cr != 0 { nt += 2; }
+            if let Some(g) = s.call(&s_signed, inp, || Vec2::signed_triangle_area(a, b, c)) { if g != hs { vio(s, &s_signed, "far-from-origin:not-half-the-2d-cross-product-of-the-differences", json!({"input": inp(), "got": format!("{:?}", g), "want": format!("{:?}", hs)}), w); } }
+            if let Some(g) = s.call(&s_area, inp, || Vec2::triangle_area(a, b, c)) { if g != ha { vio(s, &s_area, "far-from-origin:not-|cross|/2-of-the-differences", json!({"input": inp(), "got": format!("{:?}", g), "want": format!("{:?}", ha)}), w); } }
+        }
+        s.evals(ev, nt);
+        s.class_n("triangle far from the origin", ev);
+    });
+}
+
+/// Axis-aligned vectors (one non-zero lane w): |v| = |w| exactly (sqrt(fl(w^2)) = |w| in binary floating point, no over/underflow in
+/// the alphabet) and v/|v| = w/|w| = +-1 exactly, the other lanes 0: "unit length" with nothing to round.  A reciprocal-multiply
+/// rewrite gives w * (1/|w|) != 1 for w = 49, 98, ... (the same effect as for homogenized).
+fn axis_aligned<F: Fl + Sc, V: Sp<F>>(s: &Section, thorough: bool) {
+    let n = V::N;
+    let site = |f: &str| format!("{}::{}<{}>", V::NAME, f, <F as Fl>::NAME);
+    let mut ws: Vec<F> = (1..=if thorough { 2000 } else { 200 }).flat_map(|k| [F::of(k as f64), F::of(-(k as f64)), F::of(k as f64 / 7.0), F::of(k as f64 * 1e-3)]).collect();
+    ws.extend([F::of(1.0).p2(F::BIGN), F::of(-3.0).p2(F::BIGN), F::of(1.0).p2(-F::BIGN), F::of(5.0).p2(-F::BIGN)]);
+    let short: Vec<F> = vec![F::of(3.0), F::of(-49.0), F::of(0.1), F::of(98.0)];
+    let full_pos: Vec<usize> = if n <= 4 { (0..n).collect() } else { vec![0, 1, n / 2, n - 2, n - 1] };
+    let cases: Vec<(usize, F)> = (0..n).flat_map(|pos| { let l = if full_pos.contains(&pos) { &ws } else { &short }; l.iter().map(move |&w| (pos, w)).collect::<Vec<_>>() }).collect();
+    cases.par_iter().for_each(|&(pos, w)| {
+        let wf = w.f();
+        let mut e = vec![F::of(0.0); n]; e[pos] = w;
+        let vv: V = V::from_elems(e);
+        let mut unit = vec![0.0f64; n]; unit[pos] = if wf > 0.0 { 1.0 } else { -1.0 };
+        let inp = || json!({"lane": pos, "value": wf});
+        s.evals(1, 1);
+        if let Some(m) = s.call(&site("magnitude"), inp, || vv.mag_().f()) { if m != wf.abs() { vio(s, &site("magnitude"), "axis-aligned:magnitude-is-not-|w|", json!({"input": inp(), "got": m, "want": wf.abs()}), pos as u64); } }
+        let forms: [(&str, Option<(Vec<f64>, Option<f64>)>); 4] = [
+            ("normalized", s.call(&site("normalized"), inp, || (felems::<F, V>(vv.normalized_()), None))),
+            ("normalize", s.call(&site("normalize"), inp, || { let mut t = vv; t.normalize_(); (felems::<F, V>(t), None) })),
+            ("normalized_and_get_magnitude", s.call(&site("normalized_and_get_magnitude"), inp, || { let (u, l) = vv.normalized_get_(); (felems::<F, V>(u), Some(l.f())) })),
+            ("normalize_and_get_magnitude", s.call(&site("normalize_and_get_magnitude"), inp, || { let mut t = vv; let l = t.normalize_get_(); (felems::<F, V>(t), Some(l.f())) })),
+        ];
+        for (f, got) in forms {
+            let Some((u, l)) = got else { continue };
+            if u != unit { vio(s, &site(f), "axis-aligned:not-exactly-the-unit-axis", json!({"input": inp(), "got": u, "want": unit}), pos as u64); }
+            if let Some(l) = l { if l != wf.abs() { vio(s, &site(f), "axis-aligned:returned-magnitude-is-not-|w|", json!({"input": inp(), "got": l, "want": wf.abs()}), pos as u64); } }
+        }
+        if wf * wf > 1.01 * 16.0 * F::EPS {
+            match s.call(&site("try_normalized"), inp, || vv.try_normalized_().map(|r| felems::<F, V>(r))) {
+                Some(Some(u)) => if u != unit { vio(s, &site("try_normalized"), "axis-aligned:not-exactly-the-unit-axis", json!({"input": inp(), "got": u, "want": unit}), pos as u64); },
+                Some(None) => vio(s, &site("try_normalized"), "refused-a-vector-that-is-not-near-zero", json!({"input": inp(), "|v|^2": wf * wf, "16 eps": 16.0 * F::EPS}), pos as u64),
+                None => {}
+            }
+        }
+    });
+    s.class_n("axis-aligned vector", cases.len() as u64);
+}
+
+/// Scaling every lane by 2^e is exact through products, sums, square roots (even exponent) and quotients, so as long as the squared
+/// lengths stay in range: magnitude(2^e v) = 2^e magnitude(v), normalized(2^e v) = normalized(v), distance likewise and
+/// angle_between(2^e a, 2^-e b) = angle_between(a, b) - BIT FOR BIT.  (2^+-480 for f64, 2^+-56 for f32: squared lengths representable.)
+fn scale_invariance<F: Fl + Sc, V: Sp<F>>(s: &Section, thorough: bool) {
+    let n = V::N;
+    let site = |f: &str| format!("{}::{}<{}>", V::NAME, f, <F as Fl>::NAME);
+    let all = signed_left(n, thorough);
+    let k = all.len() / if thorough { 1500 } else { 150 } + 1;
+    let vs: Vec<Vec<i64>> = all.into_iter().step_by(k).filter(|v| v.iter().any(|&x| x != 0)).collect();
+    let comp: Vec<Vec<i64>> = companions(n).into_iter().take(4).collect();
+    let same = |p: &[f64], q_: &[f64]| p.len() == q_.len() && (0..p.len()).all(|i| p[i] == q_[i]);
+    vs.par_iter().for_each(|v| {
+        let mut ev = 0u64;
+        for e in [F::BIGN, -F::BIGN] {
+            let base: V = V::from_elems(v.iter().map(|&x| F::fi(x)).collect());
+            let sc: V = V::from_elems(v.iter().map(|&x| F::fi(x).p2(e)).collect());
+            let inp = || json!({"v": v, "scaled_by_2^": e});
+            let w = wsum(v);
+            ev += 3;
+            if let Some((m0, m1)) = s.call(&site("magnitude"), inp, || (base.mag_(), sc.mag_())) { if m0.p2(e).f() != m1.f() { vio(s, &site("magnitude"), "power-of-two-scaling:magnitude-does-not-scale", json!({"input": inp(), "magnitude(v)": m0.f(), "magnitude(2^e v)": m1.f()}), w); } }
+            if let Some((m0, m1)) = s.call(&site("magnitude_squared"), inp, || (base.mag2_(), sc.mag2_())) { if m0.p2(2 * e).f() != m1.f() { vio(s, &site("magnitude_squared"), "power-of-two-scaling:magnitude_squared-does-not-scale", json!({"input": inp(), "magnitude_squared(v)": m0.f(), "magnitude_squared(2^e v)": m1.f()}), w); } }
+            let u0 = s.call(&site("normalized"), inp, || felems::<F, V>(base.normalized_()));
+            let forms: [(&str, Option<Vec<f64>>); 4] = [
+                ("normalized", s.call(&site("normalized"), inp, || felems::<F, V>(sc.normalized_()))),
+                ("normalize", s.call(&site("normalize"), inp, || { let mut t = sc; t.normalize_(); felems::<F, V>(t) })),
+                ("normalized_and_get_magnitude", s.call(&site("normalized_and_get_magnitude"), inp, || felems::<F, V>(sc.normalized_get_().0))),
+                ("try_normalized", s.call(&site("try_normalized"), inp, || sc.try_normalized_().map(|r| felems::<F, V>(r)).unwrap_or_default())),
+            ];
+            if let Some(u0) = u0 { for (f, g) in forms {
+                let Some(g) = g else { continue };
+                if f == "try_normalized" && e < 0 { continue; }   // tiny vectors may be refused
+                if !same(&g, &u0) { vio(s, &site(f), "power-of-two-scaling:result-depends-on-the-length-of-the-input", json!({"input": inp(), "got": g, "normalized(v)": u0}), w); }
+            } }
+            for c in &comp {
+                if c == v || c.iter().all(|&x| x == 0) { continue; }
+                let (cb, cs, cinv): (V, V, V) = (V::from_elems(c.iter().map(|&x| F::fi(x)).collect()), V::from_elems(c.iter().map(|&x| F::fi(x).p2(e)).collect()), V::from_elems(c.iter().map(|&x| F::fi(x).p2(-e)).collect()));
+                let inp = || json!({"a": v, "b": c, "a_scaled_by_2^": e});
+                ev += 2;
+                if let Some((d0, d1)) = s.call(&site("distance"), inp, || (base.dist_(cb), sc.dist_(cs))) { if d0.p2(e).f() != d1.f() { vio(s, &site("distance"), "power-of-two-scaling:distance-does-not-scale", json!({"input": inp(), "distance(a,b)": d0.f(), "distance(2^e a, 2^e b)": d1.f()}), w); } }
+                if let Some((a0, a1, a2)) = s.call(&site("angle_between"), inp, || (base.angle_(cb).f(), sc.angle_(cinv).f(), sc.angle_(cs).f())) {
+                    if a0 != a1 || a0 != a2 { vio(s, &site("angle_between"), "power-of-two-scaling:angle-depends-on-the-lengths", json!({"input": inp(), "angle(a,b)": a0, "angle(2^e a, 2^-e b)": a1, "angle(2^e a, 2^e b)": a2}), w); }
+                }
+            }
+        }
+        s.evals(ev, ev);
+    });
+    s.class_n("power-of-two scaled vector", 2 * vs.len() as u64);
+    s.meta(&format!("{}<{}>", V::NAME, <F as Fl>::NAME), json!({"vectors": vs.len(), "exponent": F::BIGN}));
+}
+
+/// slerp of (2^e from, 2^e to) is 2^e slerp(from, to): the directions, the angle and the weights are unchanged and the lengths scale exactly
+fn slerp_scaled<F: Sl + Sc>(s: &Section) {
+    let dirs: Vec<Vec<i64>> = grid(3, -1, 1).into_iter().filter(|d| d.iter().any(|&x| x != 0)).step_by(2).collect();
+    let site = format!("Vec3::slerp_unclamped<{}>", <F as Fl>::NAME);
+    let forms_sites = [site.clone(), format!("Slerp::slerp_unclamped for Vec3<{}>", <F as Fl>::NAME), format!("Vec3::slerp<{}>", <F as Fl>::NAME), format!("Slerp::slerp for Vec3<{}>", <F as Fl>::NAME)];
+    for d1 in &dirs { for d2 in &dirs {
+        if (0..3).all(|i| d1[i] == -d2[i]) { continue; }
+        for &(r1, r2) in &[(1.0f64, 1.0f64), (1.0, 2.0), (3.0, 0.5)] { for e in [F::BIGN, -F::BIGN] { for k in [-2i64, 0, 1, 2, 3, 4, 6] {
+            let f = k as f64 / 4.0;
+            let from: [f64; 3] = std::array::from_fn(|i| d1[i] as f64 * r1);
+            let to: [f64; 3] = std::array::from_fn(|i| d2[i] as f64 * r2);
+            let (sf, st): ([f64; 3], [f64; 3]) = (from.map(|x| F::of(x).p2(e).f()), to.map(|x| F::of(x).p2(e).f()));
+            let inp = || json!({"from": from, "to": to, "both_scaled_by_2^": e, "factor": f});
+            s.eval(k != 0 && k != 4); s.class("lengths scaled by a power of two");
+            let Some((b0, b1)) = s.call(&site, inp, || (F::forms(&from, &to, f), F::forms(&sf, &st, f))) else { continue };
+            for j in 0..4 {
+                let want: [f64; 3] = b0[j].map(|x| F::of(x).p2(e).f());
+                if b0[j].iter().any(|x| x.is_nan()) { continue; }
+                if (0..3).any(|i| b1[j][i] != want[i]) { vio(s, &forms_sites[j], "power-of-two-scaling:result-does-not-scale-with-the-inputs", json!({"input": inp(), "got": jd(&b1[j]), "2^e * slerp(from,to,f)": jd(&want)}), wsum(d1) + wsum(d2) + k.unsigned_abs()); }
+            }
+        } } }
+    } }
+}
+
+/// face_forward with a reference.incident that is tiny or huge (but representable): only the SIGN decides
+fn face_forward_tiny<T: Sc, V: Sp<T>>(s: &Section) {
+    let n = V::N;
+    let site = format!("{}::face_forward<{}>", V::NAME, T::NAME);
+    let left: Vec<Vec<i64>> = if n <= 4 { grid(n, -1, 1) } else { let d = deviations(n, 0, &[-1, 1]); let k = d.len() / 200 + 1; d.into_iter().step_by(k).collect() };
+    let right: Vec<Vec<i64>> = if n <= 3 { grid(n, -1, 1) } else { companions(n) };
+    let selfs: Vec<Vec<i64>> = vec![(0..n).map(|i| i as i64 + 1).collect(), (0..n).map(|i| if i % 2 == 0 { -1 } else { 2 }).collect()];
+    left.par_iter().for_each(|inc| {
+        let (mut pos, mut neg) = (0u64, 0u64);
+        for rf in &right { for &e in T::TINY { for role in 0..2 {
+            let dot: i64 = (0..n).map(|i| inc[i] * rf[i]).sum();
+            if dot == 0 { continue; }
+            let (ei, er) = if role == 0 { (e, 0) } else { (0, e) };
+            let vi: V = V::from_elems(inc.iter().map(|&v| T::fi(v).p2(ei)).collect());
+            let vr: V = V::from_elems(rf.iter().map(|&v| T::fi(v).p2(er)).collect());
+            for sv in &selfs {
+                if dot > 0 { pos += 1 } else { neg += 1 }
+                let want: Vec<T> = sv.iter().map(|&v| T::fi(if dot > 0 { -v } else { v })).collect();
+                let vs: V = V::from_elems(sv.iter().map(|&v| T::fi(v)).collect());
+                let inp = || json!({"self": sv, "incident": inc, "reference": rf, "incident_scaled_by_2^": ei, "reference_scaled_by_2^": er, "reference.incident (unscaled)": dot});
+                if let Some(g) = s.call(&site, inp, || vs.facefwd_(vi, vr).into_elems()) {
+                    if g != want { vio(s, &site, if dot > 0 { "tiny-or-huge-dot:not-flipped-for-positive-dot" } else { "tiny-or-huge-dot:flipped-for-negative-dot" }, json!({"input": inp(), "got": jd(&g), "want": jd(&want)}), wsum(inc) + wsum(rf)); }
+                }
+            }
+        } } }
+        s.evals(pos + neg, pos + neg);
+        s.class_n("tiny or huge positive dot (flip)", pos); s.class_n("tiny or huge negative dot (keep)", neg);
+    });
+}
+
+/// refraction next to the critical angle: incident = sin(th) e_a - cos(th) e_b, normal = e_b, eta = cos(phi)/sin(th) gives
+/// k = sin^2(phi) (a rational square, tiny for tiny phi) and the transmitted ray cos(phi) e_a - sin(phi) e_b EXACTLY;
+/// eta = 1/(cos(phi) sin(th)) gives k = -tan^2(phi) < 0: total internal reflection, the zero vector
+fn refracted_near_critical<VX: Sp<X>, VD: Sp<f64>, VS: Sp<f32>>(s: &Section) {
+    let n = VX::N;
+    let pairs: Vec<(usize, usize)> = if n == 2 { vec![(0, 1), (1, 0)] } else { vec![(0, 1), (n - 1, 0), (n / 2, n / 2 + 1)] };
+    let thetas: Vec<(Q, Q)> = circle_points().into_iter().map(|(c, sn)| (c.rat(), sn.rat())).filter(|(c, sn)| c.n > 0 && sn.n > 0).collect();
+    let site = format!("{}::refracted<X>", VX::NAME);
+    for &(la, lb) in &pairs { for &(ct, st) in &thetas { for tpow in [2u32, 4, 6, 10, 20] {
+        let t = Q::new(1, 1i128 << tpow);
+        let t2 = t.mul(t);
+        let (cp, sp) = (Q::ONE.sub(t2).div(Q::ONE.add(t2)), t.add(t).div(Q::ONE.add(t2)));
+        let mut i = vec![qi(0); n]; i[la] = X::R(st); i[lb] = X::R(ct.neg());
+        let mut nn = vec![qi(0); n]; nn[lb] = qi(1);
+        for tir in [false, true] {
+            let eta = if tir { Q::ONE.div(cp.mul(st)) } else { cp.div(st) };
+            let k = Q::ONE.sub(eta.mul(eta).mul(st.mul(st)));
+            let mut want = vec![qi(0); n];
+            if !tir { want[la] = X::R(cp); want[lb] = X::R(sp.neg()); }
+            let inp = || json!({"incident": jxs(&i), "normal": jxs(&nn), "eta": format!("{:?}", eta), "k": format!("{:?}", k), "k_as_float": k.to_f64()});
+            let w = xw(&i) + tpow as u64;
+            s.eval(true);
+            s.class(if tir { "just beyond the critical angle (k < 0, tiny)" } else { "just before the critical angle (k > 0, tiny)" });
+            let (vi, vn): (VX, VX) = (VX::from_elems(i.clone()), VX::from_elems(nn.clone()));
+            if let Some(g) = s.call(&site, inp, || vi.refr_(vn, X::R(eta)).into_elems()) {
+                if g != want { vio(s, &site, if tir { "near-critical:total-internal-reflection-not-zero-vector" } else { "near-critical:not-the-grazing-transmitted-ray" }, json!({"input": inp(), "got": jxs(&g), "want": jxs(&want)}), w); }
+            }
+            // floats: the computed k carries about 16 eta^2 eps of rounding; decided only where |k| is 1024 eta^2 eps or more
+            fn fl<F: Fl, V: Sp<F>>(s: &Section, i: &[X], nn: &[X], eta: Q, k: Q, want: &[X], tir: bool, w: u64) {
+                let (fe, fk) = (F::of(eta.to_f64()).f(), k.to_f64());
+                if fk.abs() < 1024.0 * fe * fe * F::EPS { s.class("float: |k| below the rounding noise of k (not asserted)"); return; }
+                let site = format!("{}::refracted<{}>", V::NAME, F::NAME);
+                let (fi_, fn_, fw) = (qf(i), qf(nn), qf(want));
+                let (vi, vn): (V, V) = (fvec::<F, V>(&fi_), fvec::<F, V>(&fn_));
+                let inp = || json!({"incident": fi_, "normal": fn_, "eta": fe, "k": fk});
+                s.eval(true);
+                s.class("float: near-critical case decided");
+                let Some(g) = s.call(&site, inp, || felems::<F, V>(vi.refr_(vn, F::of(fe)))) else { return };
+                if tir { if g.iter().any(|&x| x != 0.0) { vio(s, &site, "near-critical:total-internal-reflection-not-zero-vector", json!({"input": inp(), "got": g}), w); } return; }
+                let scale = 1.0 + fe + fe * fe / fk.sqrt();
+                if (0..g.len()).any(|j| !near::<F>(g[j], fw[j], scale)) { vio(s, &site, "near-critical:not-the-grazing-transmitted-ray", json!({"input": inp(), "got": g, "want": fw}), w); }
+            }
+            fl::<f64, VD>(s, &i, &nn, eta, k, &want, tir, w);
+            fl::<f32, VS>(s, &i, &nn, eta, k, &want, tir, w);
         }
     } } }
 }
@@ -1254,6 +1657,47 @@ fn main() {
         s.require_classes(&["parallel pair, different lengths", "from == to", "general pair", "nearly parallel pair"]);
         slerp_float::<f64>(s, th); slerp_float::<f32>(s, th);
         slerp_float_near_parallel::<f64>(s, th); slerp_float_near_parallel::<f32>(s, th);
+    });
+
+    // ---- second audit (AUDIT2.md): special values, thresholds, in-policy extreme magnitudes, family members, twins, second calls ----
+    rep.section("second audit: distance, determine_side and triangle areas of close points far from the origin",
+        "distance(a,b), distance(b,a) and (a-b).magnitude() on the alphabet of the distance_squared section (lane i = base*k_i + offset/4, f32 base 4096, f64 base 2^27): the exact sum of squared offsets has a correctly rounded square root, compared bit for bit; Vec2::determine_side / signed_triangle_area / triangle_area for all 5^6 (thorough: 7^6, {-3..3}) offset triples a,b,c in {-2..2}^2 (quarter units for floats, whole units for integers) around four far base points (k_x,k_y) in {(1,1),(3,2),(-2,1),(1,-3)} x base (2^20 f32, 2^48 f64, 30000 i32, 2^31 i64): every coordinate difference is exact, so the result is exactly the cross product of the offsets (halved, absolute; integer halves only for an even cross product); non-trivial: non-zero distance / non-collinear", true, false, |s| {
+        s.require_classes(&["distance of close points far from the origin", "triangle far from the origin"]);
+        each_spatial!(V => {
+            dist_offsets::<f32, V<f32>>(s, "f32", &|k, d| 4096.0f32 * k as f32 + d as f32 * 0.25, &|q| (q as f32 / 16.0).sqrt());
+            dist_offsets::<f64, V<f64>>(s, "f64", &|k, d| 134217728.0f64 * k as f64 + d as f64 * 0.25, &|q| (q as f64 / 16.0).sqrt());
+        });
+        side_far::<f32>(s, th, "f32", &|k, d| 1048576.0f32 * k as f32 + d as f32 * 0.25, &|c| c as f32 / 16.0, &|c| Some(c as f32 / 32.0));
+        side_far::<f64>(s, th, "f64", &|k, d| 281474976710656.0f64 * k as f64 + d as f64 * 0.25, &|c| c as f64 / 16.0, &|c| Some(c as f64 / 32.0));
+        side_far::<i32>(s, th, "i32", &|k, d| 30000i32 * k as i32 + d as i32, &|c| c as i32, &|c| if c % 2 == 0 { Some((c / 2) as i32) } else { None });
+        side_far::<i64>(s, th, "i64", &|k, d| (1i64 << 31) * k + d, &|c| c, &|c| if c % 2 == 0 { Some(c / 2) } else { None });
+    });
+    rep.section("second audit: ring functions on signed operands scaled by powers of two",
+        "dot, magnitude_squared, distance_squared, reflected of every spatial type on signed small-integer vectors ({-2..2}^N for N <= 4 ({-3..3}^N for N <= 3 thorough), a thinned <=2-deviation set for N >= 8 (ten times denser thorough)) against signed companions, elements X, f64, f32, operands scaled by exact powers of two (f64: 2^-400, 2^300, 2^-60; f32: 2^-40, 2^30, 2^-12; X: 2^-30, 2^20; the surface normal of reflected by 1 or 2): every result is an exactly representable integer times a power of two, compared with ==; Vec3::cross on all pairs of {-2..2}^3 (thorough {-3..3}^3; X, f64, f32, i32, i64) and Vec2::determine_side / signed_triangle_area / triangle_area on all triples of {-2..2}^2 (thorough {-3..3}^2) likewise; complements the lattice sections, whose non-negative integers cannot see a sign- or size-dependent branch; non-trivial: non-zero result", true, false, |s| {
+        s.require_classes(&["negative dot product", "operands scaled by powers of two", "cross product, signed grid", "2d cross product, signed grid"]);
+        each_spatial!(V => { ring_signed::<X, V<X>>(s, th); ring_signed::<f64, V<f64>>(s, th); ring_signed::<f32, V<f32>>(s, th); });
+        cross_signed::<X>(s, th); cross_signed::<f64>(s, th); cross_signed::<f32>(s, th); cross_signed::<i32>(s, th); cross_signed::<i64>(s, th);
+        side_signed::<X>(s, th); side_signed::<f64>(s, th); side_signed::<f32>(s, th); side_signed::<i32>(s, th); side_signed::<i64>(s, th);
+    });
+    rep.section("second audit: normalisation of axis-aligned vectors and power-of-two scale invariance (f64, f32)",
+        "one non-zero lane w (every lane position; w over +-k, k/7, k/1000 for k <= 200 (thorough 2000) and +-2^+-480 (f64) / 2^+-56 (f32) at the first, middle and last lanes, four values elsewhere): magnitude and both returned magnitudes are |w| exactly, all four normalising forms and try_normalized give exactly +-1 in that lane and 0 elsewhere; power-of-two scaling by 2^+-480 / 2^+-56 of <= 150 (thorough 1500) signed vectors per type: magnitude and distance scale exactly, normalized / normalize / normalized_and_get_magnitude / try_normalized (large side) and angle_between (against 2^-e and 2^e scaled companions) return bit-identical results; squared lengths stay representable (extreme-magnitude policy); non-trivial: all", true, false, |s| {
+        s.require_classes(&["axis-aligned vector", "power-of-two scaled vector"]);
+        each_spatial!(V => { axis_aligned::<f64, V<f64>>(s, th); axis_aligned::<f32, V<f32>>(s, th); scale_invariance::<f64, V<f64>>(s, th); scale_invariance::<f32, V<f32>>(s, th); });
+    });
+    rep.section("second audit: face_forward with a tiny or huge reference.incident",
+        "incident (or reference) scaled by 2^-60, 2^-500, 2^-1000, 2^500 (f64), 2^-30, 2^-100, 2^60 (f32), 2^-60, 2^40 (X): the dot product is +-k 2^e, representable and far below any epsilon; the flip depends on its sign only; incident in {-1,0,1}^N (thinned <=2-lane vectors for N >= 8), reference likewise / companions, two self vectors; non-trivial: all (dot != 0)", true, false, |s| {
+        s.require_classes(&["tiny or huge positive dot (flip)", "tiny or huge negative dot (keep)"]);
+        each_spatial!(V => { face_forward_tiny::<X, V<X>>(s); face_forward_tiny::<f64, V<f64>>(s); face_forward_tiny::<f32, V<f32>>(s); });
+    });
+    rep.section("second audit: refracted next to the critical angle",
+        "incident = sin(th) e_a - cos(th) e_b for the four first-quadrant rational circle points, normal = e_b, on the lane pairs of the refracted section; eta = cos(phi)/sin(th) with phi of rational parameter 2^-2, 2^-4, 2^-6, 2^-10, 2^-20 makes k = sin^2(phi) (down to 3.6e-12) and the transmitted ray exactly cos(phi) e_a - sin(phi) e_b; eta = 1/(cos(phi) sin(th)) makes k = -tan^2(phi): the zero vector; X exact; f64/f32 where |k| >= 1024 eta^2 eps (rounding noise of k is about 16 eta^2 eps) with the bound of the refracted section; non-trivial: all", true, false, |s| {
+        s.require_classes(&["just before the critical angle (k > 0, tiny)", "just beyond the critical angle (k < 0, tiny)", "float: near-critical case decided"]);
+        each_spatial!(V => { refracted_near_critical::<V<X>, V<f64>, V<f32>>(s); });
+    });
+    rep.section("second audit: Vec3 slerp with lengths scaled by a power of two",
+        "from = r1 d1, to = r2 d2 for every second direction of {-1,0,1}^3 (non-antiparallel ordered pairs), lengths (1,1),(1,2),(3,1/2), both scaled by 2^+-480 (f64) / 2^+-56 (f32), factors k/4 for k in {-2,0,1,2,3,4,6}, four entry points: the result is 2^e times the unscaled result, bit for bit (directions, angle and weights do not change, lengths scale exactly; squared lengths representable); non-trivial: factor not in {0,1}", true, false, |s| {
+        s.require_classes(&["lengths scaled by a power of two"]);
+        slerp_scaled::<f64>(s); slerp_scaled::<f32>(s);
     });
 
     let counted: BTreeMap<String, u64> = THROTTLE.lock().unwrap().iter().map(|(k, v)| (k.clone(), v.0)).collect();
